@@ -14,6 +14,9 @@
 //	   shapes x request verb 0..13 x request container
 //	D  v2 delegation product (issuer in origin subjects / verbs narrowed / lifetime within / origin final / origin
 //	   signature) and mutation of a delegated token (all leaves of both links)
+//	F  two presentations of one byte-identical token to ONE service instance (shared caches): clock pairs over the
+//	   lifetime grid (chain time for v2 without purge; epochs for v1/bearer with the node's new-epoch purge) and ordered
+//	   request pairs differing in verb/container/object/sender - see sequences.go
 //	E  bearer product: scheme x lifetime^3 x table container {unset,match,mismatch} x request container x target user
 //	   {unset,sender,other} x issuer {container owner,other}; and mutation of a valid bearer token
 //
@@ -411,6 +414,7 @@ type tcase struct {
 	Mut   *vkit.Mut  `json:"mut,omitempty"`
 	Menu  string     `json:"menu,omitempty"`
 	Deleg *delegCase `json:"deleg,omitempty"`
+	Seq   *seqCase   `json:"seq,omitempty"`
 }
 
 func guard(f func() error) (err error, pan any) {
@@ -1054,6 +1058,8 @@ func (x *runner) partE(schemes []int32) {
 
 func (x *runner) replay(tc tcase) {
 	switch tc.Part {
+	case "F":
+		x.sequence(*tc.Seq)
 	case "A":
 		x.v1Case(*tc.V1, buildV1(*tc.V1, "alice", "alice"), tc.ReqVerb, cnrByName(tc.ReqCnr), map[string]oid.ID{"o1": o1, "o2": o2, "o3": o3}[tc.ReqObj])
 	case "C":
@@ -1204,6 +1210,7 @@ func main() {
 	}
 	enumx.Parallel(len(ds), func(i int) { x.delegation(ds[i]) })
 	x.partE(all)
+	x.partF(all)
 	x.mutationParts(all, true, nil)
 
 	x.mu.Lock()
@@ -1213,11 +1220,13 @@ func main() {
 	r.Set("observation_v2_n3_height_lookup", map[string]any{"lookups": lookups.Load(), "lookups_whose_argument_is_iat_in_unix_ms": lookupsMatchingIatMs.Load(),
 		"note": "internal/crypto/n3.go verifyN3ScriptsAtTime passes uint32(t.UnixMilli()); the value wraps for present-day times, so the historic height is not the one of iat (not judged by this check: the stand-in chain's CheckSig does not depend on the height)"})
 	x.mu.Unlock()
-	r.Rule("A/C/E: full products stated in the file header (no sampling); D: full delegation product; B/D/E mutation: every single-bit flip of every populated leaf, " +
+	r.Rule("F: every (clock1, clock2) over {nbf-1, nbf, inside, exp, exp+1}^2 x {purge hooks run / not run} and every ordered pair of requests (differing in verb, container, object or sender), " +
+		"each presented as TWO consecutive presentations of the same byte-identical token to ONE service instance with shared caches, each presentation judged independently; " +
+		"A/C/E: full products stated in the file header (no sampling); D: full delegation product; B/D/E mutation: every single-bit flip of every populated leaf, " +
 		"every unset field set, every populated field and sub-message cleared, every bit of the wire form, and a substitution menu, per scheme. " +
 		"Non-trivial = product case failing EXACTLY ONE criterion of the specification (distinct by all parameters), or a mutated token that is no longer authentic.")
 	r.Assume("signature unforgeability (a (scheme,key,sign) triple not produced by a harness signer over exactly the token body is invalid)",
-		"the session/bearer check caches are those of a node that resets them on every new epoch (cmd/neofs-node wiring); each world has a fixed epoch/time",
+		"cache wiring of cmd/neofs-node: on every new epoch sessionsCache.ResetCache() and aclSvc.ResetTokenCheckCache() run; chain time moves inside an epoch without any purge. Part F therefore judges v2 tokens across time changes WITHOUT a purge, and v1/bearer tokens across epoch changes WITH the purge (the no-purge epoch change is counted, not judged: the handlers are asynchronous, that window is outside this check)",
 		"v2 time semantics: a Unix timestamp is whole seconds; 'now' inside the period iff nbf <= floor(now) <= exp and iat <= floor(now)",
 		"stand-in FS chain executes N3 witness scripts in the real neo-go VM (see props/c33/vkit)")
 	r.Exhaustive(true)
